@@ -98,8 +98,8 @@ def draw_fault(rng, rec):
         kinds += ["eol_strip_final", "header_count", "header_count"]
     if fmt in ("saf", "minishark"):
         kinds += ["move_token", "move_token"]
-    else:
-        kinds = [k for k in kinds if k != "header_count"]
+    elif fmt not in F.TEXT:
+        kinds = [k for k in kinds if k != "header_count"]       # (binary formats: obspy's business)
     if fmt in ("minishark",):
         kinds = [k for k in kinds if k not in ("dup_component", "missing_component")]
     kind = rng.choice(kinds)
